@@ -390,4 +390,10 @@ theorem c14_kind_headers_parser_follows_source :
       (Generated.packLocatorParse bs).map' (fun r => (⟨r.1.1, r.1.2.1, r.1.2.2⟩ : PackLocator)) = PackLocator.decode bs) :=
   ⟨gen_containerHeaderParse, gen_contentHeaderParse, gen_directoryHeaderParse, gen_manifestHeaderParse, gen_packLocatorParse⟩
 
+/-- **The reader's decoding of a pack info follows the source**: `PackInfo::parse` translated on every run equals
+    `PackInfo.decode` on every 252-byte block. -/
+theorem c14_pack_info_parser_follows_source (bs : Bytes) (h252 : bs.length = 252) :
+    (Generated.packInfoParse bs).map' (fun r => tupleToInfo r.1) = PackInfo.decode bs :=
+  gen_packInfoParse bs h252
+
 end Jubako
